@@ -3,6 +3,9 @@ EXTENDS BasinGraphSpec
 LocalKinds == {"none", "file", "filemapped"}
 AllKinds == {"none", "file", "filemapped", "remote", "dangling"}
 ThreeRids == {"a", "ax", "b"}
+\* "x": a proper suffix of "ax", "i": an inner part of "ax" - contained in the
+\* root's identifier without being a prefix of it (IdMatch: no match)
+FiveRids == {"a", "ax", "b", "x", "i"}
 \* restricted initial states: no self references unless SelfLoops; the root's id is "ax"
 CONSTANTS SelfLoops, RemoteToo
 MCInit == /\ Init
